@@ -503,6 +503,28 @@ func run(c *fw.Ctx) {
 		{"empty json.RawMessage", json.RawMessage{}, true, json.RawMessage{}},
 		{"nil *time.Duration", nilD, false, nil}, {"*time.Duration", &d, false, nil}, {"nil *json.RawMessage", nilR, false, nil}, {"*json.RawMessage", &rm, false, nil},
 	}
+	// typed nil pointers of the object types the stdlib registers: ToInterface must not panic on them
+	for _, tn := range []struct {
+		name string
+		o    ugo.Object
+	}{{"(*time.Time)(nil)", (*utime.Time)(nil)}, {"(*time.Location)(nil)", (*utime.Location)(nil)}, {"(*json.RawMessage)(nil)", (*ujson.RawMessage)(nil)}} {
+		for _, nest := range []int{0, 1, 2} {
+			if !c.Next() {
+				continue
+			}
+			c.Nontrivial()
+			var o ugo.Object = tn.o
+			switch nest {
+			case 1:
+				o = ugo.Array{tn.o, ugo.Int(1)}
+			case 2:
+				o = ugo.Map{"k": tn.o}
+			}
+			if _, pan := protectAny(func() any { return ugo.ToInterface(o) }); pan != nil {
+				c.Violation(fmt.Sprintf("R|ToInterface|typed nil %s nest=%d", tn.name, nest), fmt.Sprintf("ToInterface(%s nest=%d) panics: %v", tn.name, nest, pan), nil)
+			}
+		}
+	}
 	for _, r := range rs {
 		for _, nest := range []int{0, 1, 2} {
 			if !c.Next() {
